@@ -66,6 +66,7 @@ def oracle(script: dict, run: Any) -> List[Violation]:
         kicks.setdefault(e[4]["marker"], []).append(e)
     oks = {(e[4]["marker"], e[4]["n"]) for e in h.kind("kick_ok")}
     removed = {op["id"] for op in script.get("ops", []) if op["op"] == "remove"}
+    removed |= {op["sched"]["id"] for op in script.get("ops", []) if op["op"] == "create" and op.get("unschedule_after_us") is not None}
     cancelled = {c for src in script["sources"] for c in src.get("cancel", [])}
     evals_by_marker: Dict[Any, List[Any]] = {}
     for now_us, task, res, _sq in run.delay_log:
